@@ -87,7 +87,8 @@ def run(cx):
                 ok_el = len(elems) == 1 and elems[0][0] == 'Vec::push'
                 m = None
                 if ok_el:
-                    el = elems[0][2][0]
+                    from vpa import comp as CMP
+                    el = CMP.canon(elems[0][2][0])        # index form: `for i in 0..n-1` with v[i], v[i+1] and `v.windows(2).enumerate()` alike
                     m = match('(add $prev (call $f (index $v (add 1 $i)) (index $v $i)))', el) or match('(call f64::add $prev (call $f (index $v (add 1 $i)) (index $v $i)))', el) or \
                         match('(call f64::add (call $f (index $v (add 1 $i)) (index $v $i)) $prev)', el)
                     if m is None:
